@@ -48,6 +48,8 @@ func TestBubble(t *testing.T) {
 func TestRace(t *testing.T) {
 	theT = t
 	pbt.Main(t, pbt.Spec[walkeng.Case]{ID: "C03", WAL: true,
-		Gen: func(t *rapid.T) walkeng.Case { return walkeng.Gen(t, walkeng.GenOpts{MaxN: 60, RealTime: true, ZeroBias: true}) },
+		Gen: func(t *rapid.T) walkeng.Case {
+			return walkeng.Gen(t, walkeng.GenOpts{MaxN: 60, RealTime: true, ZeroBias: true})
+		},
 		Run: runWith(false)})
 }
